@@ -1,6 +1,29 @@
 (** C19 — a program means the same however it is delivered. *)
-From Lisp Require Import Base Value Core Binder Env Eval Interp EvalProofs Scanner Reader Printer PrintReadProofs Run.
+From Lisp Require Import Base Value Core Binder Env Eval Interp EvalProofs Scanner Reader Printer PrintReadProofs Run PrintScan PrintParse PosErase PosErase2 PosEraseEval Reread.
 From Lisp.Gen Require Headers.
+
+(** THE property for the routes that differ in source positions only (an AST built by a Go host, the same text read
+    without a module name, under a module name, at another place of a file): evaluation commutes with erasing every
+    position — from the form, from every value in every scope, atom and the trace, from closures' bodies and from the
+    cursor of error values.  For every program, scope, state, fuel and depth. *)
+Theorem C19_positions_do_not_matter : forall n d ast env st,
+  eval n d (erase ast) env (est st) = (eoA erase (fst (eval n d ast env st)), est (snd (eval n d ast env st))).
+Proof. exact positions_do_not_matter. Qed.
+
+Theorem C19_same_up_to_positions : forall n d a1 a2 env s1 s2,
+  erase a1 = erase a2 -> est s1 = est s2 ->
+  eoA erase (fst (eval n d a1 env s1)) = eoA erase (fst (eval n d a2 env s2)) /\
+  est (snd (eval n d a1 env s1)) = est (snd (eval n d a2 env s2)).
+Proof. exact same_up_to_positions. Qed.
+
+(** ... and for the route through the printer: a printable program re-read from its printed form, without or under a
+    module name, evaluates like the form it was printed from (C06 composed with the theorem above) *)
+Theorem C19_reread_evaluates_the_same : forall cm ast, pv ast = true -> clean (pr_str true ast) = true ->
+  exists ast', read_str cm None None (pr_str true ast) = Ok ast' /\
+    forall n d env s1 s2, est s1 = est s2 ->
+      eoA erase (fst (eval n d ast' env s1)) = eoA erase (fst (eval n d ast env s2)) /\
+      est (snd (eval n d ast' env s1)) = est (snd (eval n d ast env s2)).
+Proof. exact reread_evaluates_the_same. Qed.
 
 (** one `do` = the forms one after the other in the same scope, value of the last *)
 Theorem C19_do_is_sequential : forall n d forms cur env st,
@@ -52,6 +75,9 @@ Example C19_load_file_trailing_comment :
   (exists v, read_str None None None (s_ ";; $MODULE f.lisp" ++ [10%N] ++ s_ "(do 1 ;c" ++ [10%N] ++ s_ "nil)") = Ok v).
 Proof. split; [vm_compute; discriminate | eexists; vm_compute; reflexivity]. Qed.
 
+Print Assumptions C19_positions_do_not_matter.
+Print Assumptions C19_same_up_to_positions.
+Print Assumptions C19_reread_evaluates_the_same.
 Print Assumptions C19_do_is_sequential.
 Print Assumptions C19_printed_strings_reread.
 Print Assumptions C19_load_file_wrapper.
